@@ -4,6 +4,7 @@ import SqiProofs.LllDim2
 import SqiProofs.LllGuard
 import SqiProofs.LllGram
 import SqiProofs.LllResp
+import SqiProofs.LllEnum
 /- Property C16 — "Lattice reduction keeps the lattice and reduces it; responses are short".
    Property theorems only (+ non-vacuity examples); lemmas live in SqiProofs/Lll*.lean, models in
    SqiModel/{Lll,Dim2}.lean (tied to the C code by the correspondence / certificate harness tools/props/c16.py). -/
@@ -253,11 +254,73 @@ example : shortBasis 1 ⟨2, 1, 0, 0⟩ = none := by decide
 theorem closest_vector_in_lattice {q : Int} {rb : M2} {t : V2} {o : CvpOut} (h : closestVector q rb t = some o) :
     t.sub o.tmc = rb.eval o.coords := closestVector_lattice h
 
-/-- `quat_dim2_lattice_qf_enumerate_short_vec`, soundness of found = 1 (completeness NOT claimed). -/
+/-- `quat_dim2_lattice_qf_enumerate_short_vec`, soundness of found = 1 (for completeness see below). -/
 theorem enumerate_short_vec_sound {cond : V2 → Option Elem} {q : Int} {tmc : V2} {b : M2} {nb : Int} {mt : Nat}
     {e : Elem} (h : enumerateShortVec cond q tmc b nb mt = some (some e)) :
     ∃ x y : Int, cond (tmc.sub (b.eval ⟨x, y⟩)) = some e ∧ normV q (tmc.sub (b.eval ⟨x, y⟩)) ≤ nb :=
   enumerateShortVec_sound cond q tmc b nb h
+
+/-! ### completeness of the bounded enumeration — what is and is not guaranteed
+
+`quat_dim2_lattice_qf_enumerate_short_vec` processes the cells `(x,y)`, `y = -bound_y … bound_y`,
+`x = -x_v(y) … bound_x(y)`, in the order y ascending, x ascending; every cell costs one try; it stops after a hit,
+after the cell (0,0), or when `max_tries` is used up (`SqiProofs.LllEnum.enumerateShortVec_eq_fold`).  The box is
+computed for the CENTRED ellipse `a x² + b x y + c y² ≤ N' = norm_bound - N(target_minus_closest)` (the C comment calls
+this a heuristic), while the test is `N(target_minus_closest - B·(x,y)) ≤ norm_bound`. -/
+open SqiProofs.LllEnum in
+/-- `quat_dim2_lattice_qf_value_bound_generation` is a strict upper bound of `√(num_a/denom_a) + num_b/denom_b`
+    (no square roots: for every rational `t ≥ 0` with `t²·denom_a ≤ num_a`); it succeeds whenever `denom_a > 0`,
+    `denom_b ≠ 0`, `num_a ≥ 0`. -/
+theorem bound_generation_upper {numA denA numB denB : Int} (hdA : 0 < denA) (hdB : denB ≠ 0) (hnA : 0 ≤ numA) :
+    ∃ r : Int, boundGen numA denA numB denB = some (some r) ∧
+      ∀ t : ℚ, 0 ≤ t → t ^ 2 * denA ≤ numA → t + (numB : ℚ) / denB < r :=
+  boundGen_upper hdA hdB hnA
+
+open SqiProofs.LllEnum in
+/-- the Fincke–Pohst box: every integer point of the centred ellipse has its `x` strictly inside the x-range of its
+    row; its `y` is strictly inside `[-bound_y, bound_y]` if `(4a²c - b²)·y² ≤ 4a²·N'` — implied by the ellipse when
+    `a = 1` or `b = 0` (second statement), NOT in general (`enumeration_box_misses_ellipse`). -/
+theorem enumeration_box_contains {q : Int} {tmc : V2} {b : M2} {nb : Int} {pre : EnumPre}
+    (hpre : enumPre q tmc b nb = some pre) (ha : 0 < qfA q b) {x y : Int}
+    (h : qfA q b * x * x + qfB q b * x * y + qfC q b * y * y ≤ nbeOf q tmc nb) :
+    (∃ lo hi, rowBounds pre y = some (lo, hi) ∧ lo < x ∧ x < hi) ∧
+    ((2 * qfA q b * (2 * qfA q b) * qfC q b - qfB q b * qfB q b) * (y * y)
+        ≤ 2 * qfA q b * (2 * qfA q b) * nbeOf q tmc nb → -pre.boundY < y ∧ y < pre.boundY) ∧
+    (qfA q b = 1 ∨ qfB q b = 0 → -pre.boundY < y ∧ y < pre.boundY) := by
+  obtain ⟨h1, h2⟩ := box_contains hpre ha h
+  exact ⟨h1, h2, fun hs => h2 (code_y_of_ellipse ha hs h)⟩
+
+open SqiProofs.LllEnum in
+/-- **completeness relative to the box, with the exact stop conditions**: if the routine does not abort, the cell
+    `(x,y)` is in the box, no earlier cell (rows `y' < y` completely, then `x' < x` in row `y`) satisfies
+    bound+condition or is (0,0), fewer than `max_tries` cells precede it, and bound+condition holds at `(x,y)`, then
+    the routine returns that element. -/
+theorem enumerate_short_vec_complete_in_box (cond : V2 → Option Elem) (q : Int) (tmc : V2) (b : M2) (nb : Int) (mt : Nat)
+    {pre : EnumPre} (hpre : enumPre q tmc b nb = some pre) {r : Option Elem}
+    (hres : enumerateShortVec cond q tmc b nb mt = some r)
+    {x y lo hi : Int} (hy1 : -pre.boundY ≤ y) (hy2 : y ≤ pre.boundY) (hrow : rowBounds pre y = some (lo, hi))
+    (hx1 : lo ≤ x) (hx2 : x ≤ hi)
+    (hrows : ∀ y' ∈ intRange (-pre.boundY) (y - 1), ∀ lo' hi', rowBounds pre y' = some (lo', hi') →
+      ∀ x' ∈ intRange lo' hi', Pass cond q tmc b nb x' y')
+    (hrowy : ∀ x' ∈ intRange lo (x - 1), Pass cond q tmc b nb x' y)
+    (htries : cellsOfRows pre (intRange (-pre.boundY) (y - 1)) + (intRange lo (x - 1)).length < mt)
+    {e : Elem} (hhit : boundAndCondition cond q x y tmc b nb = some e) : r = some e :=
+  enum_complete_in_box cond q tmc b nb mt hpre hres hy1 hy2 hrow hx1 hx2 hrows hrowy htries hhit
+
+/-- **the box does NOT contain the ellipse in general** (the y-bound uses `4a²c - b²` where the ellipse gives
+    `4a²c - a·b²`): q = 3, reduced basis (2,0),(-1,1) (form (4,-4,4)), target_minus_closest = 0, norm_bound = 680.
+    The lattice vector `B·(7,15)`, i.e. `w = (1,-15)`, has norm 676 ≤ 680, but `bound_y = 14 < 15`: with the condition
+    "vec = w" and 10000 tries the routine returns 0.  Replayed on the C code on every run (`d2.enumeq`). -/
+theorem enumeration_box_misses_ellipse :
+    normV 3 ⟨1, -15⟩ ≤ 680 ∧ (⟨1, -15⟩ : V2) = (⟨0, 0⟩ : V2).sub ((⟨2, -1, 0, 1⟩ : M2).eval ⟨7, 15⟩) ∧
+    enumerateShortVec (eqCondition ⟨1, -15⟩) 3 ⟨0, 0⟩ ⟨2, -1, 0, 1⟩ 680 10000 = some none := by
+  refine ⟨by decide, by decide, by decide +kernel⟩
+
+/-- non-vacuity of the completeness statements on the same input: the precomputation succeeds (bound_y = 14), and the
+    in-box vector (2,0) = -B·(-1,0) IS found. -/
+example : (SqiProofs.LllEnum.enumPre 3 ⟨0, 0⟩ ⟨2, -1, 0, 1⟩ 680).map (·.boundY) = some 14 ∧
+    enumerateShortVec (eqCondition ⟨2, 0⟩) 3 ⟨0, 0⟩ ⟨2, -1, 0, 1⟩ 680 10000 = some (some ⟨1, ⟨2, 0, 0, 0⟩⟩) := by
+  refine ⟨by decide +kernel, by decide +kernel⟩
 
 /-- `quat_2x2_lattice_enumerate_cvp_filter`: a returned element is `condition v` with `v ≡ target` modulo the
     lattice and `N(v) ≤ 2^dist_bound`. -/
